@@ -254,6 +254,15 @@ def obligations(tier, seed):
                 pre2 = list(struct.pack('!HBB', afi, safi, nh)) + [1] * nh + [0]
                 out.append(ob('C11/leaf/mpreach/afi=%d/safi=%d/nh=%d/n=%d' % (afi, safi, nh, n), 'ob_leaf',
                               {'dec': 'mpreach', 'n': n, 'prefix': pre2}, cap=200 if quick else 800))
+    # OPEN with capability values made of repeated 4-octet tuples (ADD-PATH 69, MP 1, extended next hop 5 ...): the
+    # same tuple k times, last octet symbolic
+    for code in (69, 1, 5, 64, 71):
+        for k in (2, 3):
+            tup = [0, 1, 1]
+            val = (tup + [3]) * (k - 1) + tup
+            pre = [4, 0xfc, 0, 0, 0xb4, 10, 0, 0, 6, 2 + 2 + len(val) + 1, 2, 2 + len(val) + 1, code, len(val) + 1] + val
+            out.append(ob('C11/leaf/open/capability=%d/same-tuple-x%d' % (code, k), 'ob_leaf', {'dec': 'open', 'n': 1, 'prefix': pre},
+                          cap=200 if quick else 600))
     # sub-TLV carrying TLVs: many siblings / deep chains (work must stay linear)
     for outer in (1106, 1162):
         for form in ('siblings', 'chain'):
